@@ -256,7 +256,7 @@ MUTANTS: Dict[str, List[M]] = {
         ("applied links not recorded", "_link_arguments.py", "            applied_links.add(action)\n", "", "C16.d"),
     ],
     "C17": [
-        ("unknown subcommand name from the environment dropped again (F61)", "_core.py", "                else:\n                    cfg[action.dest] = env_val\n", "", "C17.i"),
+        ("unknown subcommand name from the environment dropped again (F61)", "_core.py", "                cfg[action.dest] = subcommand = self._check_value_key(action, env_val, action.dest, cfg)\n                if env_val in action.choices:\n", "                if env_val in action.choices:\n                    cfg[action.dest] = subcommand = self._check_value_key(action, env_val, action.dest, cfg)\n", "C17.i"),
         ("default config file picks the subcommand", "_core.py", "with _ActionPrintConfig.skip_print_config(), _ActionSubCommands.not_single_subcommand():", "with _ActionPrintConfig.skip_print_config():", "C17.h"),
         ("default config fold forces a decision", "_core.py", "                            skip_required=True,\n                            fail_no_subcommand=False,\n", "                            skip_required=True,\n", "C17.h"),
         ("other sections only partly deleted", "_actions.py", "for key in [k for k in subcommand_keys if k != subcommand]:", "for key in subcommand_keys[1:]:", "C17.c"),
